@@ -12,6 +12,8 @@ echo "[setup] building C18 binaries"
 ( cd harness && RUSTFLAGS="--cfg hpke_verif" CARGO_TARGET_DIR="$PWD/../target/on" cargo build --release --offline --bins 2>&1 | tail -1 )
 echo "[setup] warming the C17 target directories"
 python3 tools/c17.py --warm
+# one complete quick pass so that every feature subset is already built (results are rewritten by ./check C17)
+python3 tools/c17.py --tier quick > /dev/null 2>&1 || true
 echo "[setup] R2 anchors"
 ( cd ref && python3 anchors.py )
 echo "[setup] done"
